@@ -177,6 +177,53 @@ class NormalForm:
         """a precedes b in program order."""
         return self.effects.index(a) < self.effects.index(b)
 
+    # ---- finite-domain reasoning on a variable that is only ever compared with constants ------------------------------
+    _OTHER = object()
+
+    @staticmethod
+    def _literal(c: str, var: str):
+        """(polarity, set of constants) of a condition `var == k` / `var in (k, ...)`, or None if it is about something else."""
+        pol, _, test = c.partition(" ")
+        m = re.fullmatch(r"cmp\[(Eq|In)\]\((.*)\)", test)
+        if not m:
+            return None
+        try:
+            a, b = [x.strip() for x in _split_top(m.group(2))]
+            if m.group(1) == "Eq":
+                if a == var:
+                    a, b = b, a
+                if b != var:
+                    return None
+                return pol == "if", {ast.literal_eval(a)}
+            if a != var:
+                return None
+            return pol == "if", set(ast.literal_eval(b))
+        except (ValueError, SyntaxError):
+            return None
+
+    def values_at(self, e: Effect, var: str) -> set:
+        """The values `var` can have when `e` executes: the constants it is compared with anywhere in the function plus
+        'anything else' (NormalForm._OTHER), filtered by e's own conditions and by the fact that no earlier `raise` whose
+        conditions are all about `var` was taken (`if v not in (a, b): raise` leaves {a, b} for what follows)."""
+        lits_all = [self._literal(c, var) for f in self.effects for c in f.ctx]
+        universe = set().union(*[l[1] for l in lits_all if l is not None]) | {self._OTHER}
+
+        def holds(v, c):
+            l = self._literal(c, var)
+            if l is None:
+                return None
+            pol, vals = l
+            return (v in vals) == pol
+        possible = {v for v in universe if all(holds(v, c) is not False for c in e.ctx)}
+        for r in self.raises():
+            if r is e or not self.before(r, e) or not r.ctx or any(self._literal(c, var) is None for c in r.ctx):
+                continue
+            possible -= {v for v in possible if all(holds(v, c) for c in r.ctx)}
+        return possible
+
+    def selects(self, e: Effect, var: str, value) -> bool:
+        return self.values_at(e, var) == {value}
+
     def of_kind(self, kind: str) -> list[Effect]:
         return [e for e in self.effects if e.kind == kind]
 
